@@ -338,6 +338,200 @@ fn case(max_tasks: usize, pct: bool) -> impl Strategy<Value = Case> {
         .prop_map(|(lens, tasks, seed, pct)| Case { lens, tasks, seed, pct })
 }
 
+// ---------------------------------------------------------------------------------------------
+// Part `miri_ordering`: the same kind of scripts on the REAL crate, real threads, interpreted by
+// Miri (vh-miri33).  Miri's happens-before data-race detector, borrow tracker and leak check are the
+// oracle, so that ordering-strength defects (a too-weak ordering on the reference count) that no
+// sequentially consistent interleaving can show are decided too.
+// ---------------------------------------------------------------------------------------------
+mod miri {
+    use std::{path::PathBuf, process::Command, sync::OnceLock};
+
+    use proptest::prelude::*;
+    use serde::{Deserialize, Serialize};
+    use vcommon::{CaseInfo, CheckResult, Failure};
+
+    #[derive(Clone, Debug, Serialize, Deserialize)]
+    pub struct Scn {
+        len: u8,
+        /// b = main drops its handle before any join, m = after the first join, a = after all joins
+        main: char,
+        /// per thread: ops out of c r d s g y
+        threads: Vec<String>,
+    }
+
+    #[derive(Clone, Debug, Serialize, Deserialize)]
+    pub struct Case {
+        miri_seed: u32,
+        /// false: Miri's weak-memory emulation off (every load sees the latest store)
+        weak: bool,
+        /// preemption rate in percent
+        preempt: u8,
+        scns: Vec<Scn>,
+    }
+
+    fn script() -> impl Strategy<Value = String> {
+        prop::collection::vec(
+            prop_oneof![3 => Just('c'), 5 => Just('r'), 5 => Just('d'), 1 => Just('s'), 1 => Just('g'), 1 => Just('y')],
+            0..7,
+        )
+        .prop_map(|v| v.into_iter().collect())
+    }
+
+    fn scn() -> impl Strategy<Value = Scn> {
+        (
+            prop_oneof![6 => 23u8..=80, 1 => 0u8..=22],
+            prop_oneof![3 => Just('b'), 1 => Just('m'), 1 => Just('a')],
+            prop::collection::vec(script(), 2..=4),
+        )
+            .prop_map(|(len, main, threads)| Scn { len, main, threads })
+    }
+
+    pub fn case() -> impl Strategy<Value = Case> {
+        (any::<u32>(), any::<bool>(), prop_oneof![Just(0u8), Just(1), Just(5), Just(25)], prop::collection::vec(scn(), 1..=6))
+            .prop_map(|(miri_seed, weak, preempt, scns)| Case { miri_seed, weak, preempt, scns })
+    }
+
+    fn harness_dir() -> PathBuf {
+        PathBuf::from(concat!(env!("CARGO_MANIFEST_DIR"), "/.."))
+    }
+
+    fn sysroot() -> PathBuf {
+        if let Ok(p) = std::env::var("VERIF_MIRI_SYSROOT") {
+            return PathBuf::from(p);
+        }
+        // <target-dir>/miri-sysroot; the target dir is the one this binary was started from
+        let exe = std::env::current_exe().expect("current_exe");
+        exe.parent().and_then(|p| p.parent()).expect("target dir").join("miri-sysroot")
+    }
+
+    fn cargo_miri(args: &[&str], flags: &str) -> Command {
+        let mut c = Command::new("cargo");
+        c.current_dir(harness_dir())
+            .arg("+nightly")
+            .arg("miri")
+            .args(args)
+            .env("CARGO_NET_OFFLINE", "true")
+            .env("MIRI_SYSROOT", sysroot())
+            .env("MIRIFLAGS", flags)
+            .env_remove("RUSTFLAGS")
+            .env_remove("CARGO_TARGET_DIR");
+        if let Some(t) = std::env::current_exe().ok().and_then(|e| e.parent().and_then(|p| p.parent()).map(|p| p.to_path_buf())) {
+            c.env("CARGO_TARGET_DIR", t);
+        }
+        c
+    }
+
+    fn inconclusive(msg: &str) -> ! {
+        println!("INCONCLUSIVE property=C33 {msg}");
+        std::process::exit(2);
+    }
+
+    /// Builds the Miri sysroot (once per target dir) and the interpreted program; exit 2 if that is impossible.
+    pub fn warm() {
+        static ONCE: OnceLock<()> = OnceLock::new();
+        ONCE.get_or_init(|| {
+            if !sysroot().join("lib").exists() {
+                let out = cargo_miri(&["setup"], "").output();
+                match out {
+                    Ok(o) if o.status.success() => {}
+                    Ok(o) => inconclusive(&format!(
+                        "cargo miri setup failed: {}",
+                        String::from_utf8_lossy(&o.stderr).lines().rev().take(3).collect::<Vec<_>>().join(" | ")
+                    )),
+                    Err(e) => inconclusive(&format!("cannot start cargo miri setup: {e}")),
+                }
+            }
+            let out = cargo_miri(&["run", "-q", "-p", "vh-miri33", "--"], "").output();
+            match out {
+                Ok(o) if o.status.success() && String::from_utf8_lossy(&o.stderr).contains("ALL-SCENARIOS-DONE") => {}
+                Ok(o) => inconclusive(&format!(
+                    "Miri build of vh-miri33 failed: {}",
+                    String::from_utf8_lossy(&o.stderr).lines().rev().take(5).collect::<Vec<_>>().join(" | ")
+                )),
+                Err(e) => inconclusive(&format!("cannot start cargo miri run: {e}")),
+            }
+        });
+    }
+
+    fn normalise(line: &str) -> String {
+        // "error: Undefined Behavior: Data race detected between (1) non-atomic read on thread `unnamed-1` and (2) deallocation on thread `unnamed-2` at alloc1+0x10"
+        let l = line.trim_start_matches("error: ");
+        let mut out = String::new();
+        for ch in l.chars() {
+            if ch.is_ascii_digit() {
+                if !out.ends_with('#') {
+                    out.push('#');
+                }
+            } else {
+                out.push(ch);
+            }
+        }
+        for cut in [" at alloc", " (Rust heap", ", allocated here"] {
+            if let Some(i) = out.find(cut) {
+                out.truncate(i);
+            }
+        }
+        // thread names differ by schedule
+        out.replace("`unnamed-#`", "`T`").replace("`main`", "`T`")
+    }
+
+    pub fn check(c: &Case, info: &mut CaseInfo) -> CheckResult {
+        warm();
+        let mut flags = format!("-Zmiri-seed={} -Zmiri-preemption-rate={:.2}", c.miri_seed, f64::from(c.preempt) / 100.0);
+        if !c.weak {
+            flags.push_str(" -Zmiri-disable-weak-memory-emulation");
+        }
+        let args: Vec<String> = c.scns.iter().map(|s| format!("{},{},{}", s.len, s.main, s.threads.join("/"))).collect();
+        let mut cmd = cargo_miri(&["run", "-q", "-p", "vh-miri33", "--"], &flags);
+        cmd.args(&args);
+        let out = match cmd.output() {
+            Ok(o) => o,
+            Err(e) => inconclusive(&format!("cannot start cargo miri run: {e}")),
+        };
+        let err = String::from_utf8_lossy(&out.stderr).to_string();
+        let mut nontrivial = false;
+        for s in &c.scns {
+            let busy = s.threads.iter().filter(|t| t.contains('r') || t.contains('d') || t.contains('c')).count();
+            if s.len > 22 && busy >= 2 {
+                nontrivial = true;
+            }
+            info.label(format!("main_drop={}", s.main));
+        }
+        info.label(if c.weak { "weak_memory_emulation" } else { "sequentially_consistent_loads" });
+        info.label(format!("preempt={}%", c.preempt));
+        info.label(format!("scenarios={}", c.scns.len()));
+        if out.status.success() {
+            if !err.contains("ALL-SCENARIOS-DONE") {
+                inconclusive("Miri run ended successfully without finishing the scenarios");
+            }
+            if nontrivial {
+                info.nontrivial();
+            }
+            return Ok(());
+        }
+        let last_scn = err.lines().filter(|l| l.starts_with("SCENARIO ")).last().unwrap_or("").to_string();
+        if let Some(l) = err.lines().find(|l| l.starts_with("error: Undefined Behavior") || l.starts_with("error: memory leaked")) {
+            return Err(Failure::new(format!("Miri: {}", normalise(l)), format!("{last_scn}\nMIRIFLAGS={flags}\n{}", tail(&err))));
+        }
+        if err.contains("text read returned wrong bytes") {
+            return Err(Failure::new("text read returned wrong bytes (freed or corrupted memory)", format!("{last_scn}\n{}", tail(&err))));
+        }
+        if err.contains("panicked at") {
+            return Err(Failure::new("scenario panicked under Miri", format!("{last_scn}\n{}", tail(&err))));
+        }
+        if let Some(l) = err.lines().find(|l| l.starts_with("error: the main thread terminated") || l.starts_with("error: deadlock")) {
+            return Err(Failure::new(format!("harness: {}", normalise(l)), tail(&err)));
+        }
+        inconclusive(&format!("cargo miri run failed for another reason: {}", tail(&err)))
+    }
+
+    fn tail(s: &str) -> String {
+        let v: Vec<&str> = s.lines().filter(|l| !l.trim().is_empty()).collect();
+        v[v.len().saturating_sub(25)..].join("\n")
+    }
+}
+
 pub fn run(ctx: &Ctx) -> ! {
     let mut rep = Report::new(ctx, "exploration");
     crate::engine_assumptions(&mut rep);
@@ -357,5 +551,16 @@ pub fn run(ctx: &Ctx) -> ! {
     if ctx.tier == vcommon::Tier::Thorough || ctx.is_replay() {
         rep.explore("text_pct", rule, || case(3, true), scripts / 2, move |c, i| check(c, i, iters));
     }
+    rep.assume(
+        "part miri_ordering: the real crate on real threads interpreted by Miri (nightly); Miri's data-race detector \
+         (happens-before over the C++11 model incl. fences), borrow tracker, use-after-free / double-free detection and \
+         end-of-run leak check are the oracle; schedules come from Miri's seeded scheduler (generated seed, preemption \
+         rate 0/1/5/25 %, weak-memory emulation on or off)",
+    );
+    let mrule = "case = Miri seed x weak-memory emulation on/off x preemption rate x 1-6 scenarios; scenario = text of 0-80 bytes \
+                 (>22 = heap) cloned into 2-4 threads running 0-6 ops (clone, read+compare, drop, send to / get from a shared \
+                 pool, yield), main handle dropped before the joins / after the first / after all; non-trivial = a heap-backed \
+                 scenario in which >=2 threads touch their handle";
+    rep.explore("miri_ordering", mrule, miri::case, ctx.pick(64, 1200), miri::check);
     crate::finish(rep)
 }
